@@ -149,6 +149,12 @@ func (ex *Exec) bitUF(op string, bits uint) string {
 		switch op {
 		case "and":
 			ex.sc.axiom(fmt.Sprintf("(forall ((a Int) (b Int)) (! (=> (and (>= a 0) (>= b 0)) (and (<= (%s a b) a) (<= (%s a b) b))) :pattern ((%s a b))))", name, name, name))
+			// disjoint bit ranges: a multiple of 2^k and a number below 2^k have no common bit
+			// (lemma and_disjoint_k in lemmas/bitops.smt2, proved over bit-vectors)
+			for _, k := range []int{4, 8, 16} {
+				m := numBig(pow2(uint(k)))
+				ex.sc.axiom(fmt.Sprintf("(forall ((a Int) (b Int)) (! (=> (and (>= a 0) (= (mod a %s) 0) (<= 0 b) (< b %s)) (and (= (%s a b) 0) (= (%s b a) 0))) :pattern ((%s a b))))", m, m, name, name, name))
+			}
 		case "or":
 			ex.sc.axiom(fmt.Sprintf("(forall ((a Int) (b Int)) (! (=> (and (>= a 0) (>= b 0)) (and (>= (%s a b) a) (>= (%s a b) b) (<= (%s a b) (+ a b)))) :pattern ((%s a b))))", name, name, name, name))
 		}
